@@ -110,7 +110,7 @@ pub mod m_{s.sid} {{
 """
 
 
-def write_crate(crate_dir: str, bins: List[List[Subject]], repo: str = "/repo"):
+def write_crate(crate_dir: str, bins: List[List[Subject]], repo: str = os.environ.get("VERIF_REPO", "/repo")):
     """bins[k] = subjects compiled into binary bK"""
     src = os.path.join(crate_dir, "src")
     bind = os.path.join(src, "bin")
